@@ -72,10 +72,9 @@ def models(tier):
          dict(N=2, MaxCons=2, MaxChain=1, kinds=LENKINDS, labels=['S'], edges=['--'], profiles=[[]],
               only=['export', 'tigerxml'])]
     t = [dict(N=3, MaxCons=2, MaxChain=2,
-              kinds=[kind('w', sfx=True), kind('('), kind(')'), kind('a&<', tag='$('), kind(u'Üb"\'', sfx=True),
-                     kind('x' * 8)],
+              kinds=[kind('w', sfx=True), kind('('), kind('a&<', tag='$('), kind(u'Üb"\'', sfx=True)],
               labels=['S-X'], edges=['HD', '--'],
-              profiles=[[], ['lemma'], ['morph'], ['edge'], ['lemma', 'morph', 'edge']]),
+              profiles=[[], ['lemma'], ['morph'], ['edge', 'morph']]),
          dict(N=5, MaxCons=4, MaxChain=1, kinds=[kind('w', sfx=True)], labels=['S'], edges=['--'],
               profiles=[[]], only=['export', 'brackets', 'tigerxml', 'discobrackets']),
          dict(N=3, MaxCons=2, MaxChain=1, kinds=LENKINDS, labels=['S'], edges=['--'], profiles=[[]],
